@@ -204,9 +204,19 @@ def execute(spec, count_lines=False):
             for i, op in enumerate(spec["ops"]):
                 k = op["op"]
                 if k == "prewrite":
+                    if op["prestate"] in ("same_lf", "same_cr", "same_trailing"):
+                        # somebody else's copy of the very same records with other line breaks (an editor or a
+                        # version-control system normalised them) or with a trailing line break
+                        recs_now = [str(r) for r in wl]
+                        sep = {"same_lf": "\n", "same_cr": "\r", "same_trailing": "\r\n"}[op["prestate"]]
+                        pre_bytes = sep.join(recs_now).encode("latin-1", "replace")
+                        if op["prestate"] == "same_trailing":
+                            pre_bytes += b"\r\n"
+                    else:
+                        pre_bytes = PRESTATE_BYTES[op["prestate"]]
                     with open(os.path.join(scratch, op["file"]), "wb") as f:
-                        f.write(PRESTATE_BYTES[op["prestate"]])
-                    known[op["file"]] = PRESTATE_BYTES[op["prestate"]]
+                        f.write(pre_bytes)
+                    known[op["file"]] = pre_bytes
                     res.outcomes.append("ok")
                 elif k == "save":
                     do_save(i, op, (i,))
@@ -381,7 +391,8 @@ class Program:
                         sess.step(e)
                     name = rng.choice(GOOD_NAMES + [main, main])
                     if rng.random() < 0.3:
-                        ops.append({"op": "prewrite", "file": name, "prestate": rng.choice(["empty", "shorter", "longer", "equalish", "torn"])})
+                        ops.append({"op": "prewrite", "file": name, "prestate": rng.choice(
+                            ["empty", "shorter", "longer", "equalish", "torn", "same_lf", "same_cr", "same_trailing"])})
                     ops.append({"op": "save", "file": name, "path_kind": rng.choice(["str", "Path", "str", "Path", "rel", "relPath"])})
                     r2 = rng.random()
                     if r2 < 0.3:
